@@ -598,6 +598,16 @@ def compare(snap, y, path, out, first_texts, top):
         compare(s, v, path + [i], out, first_texts, False)
 
 
+def _nested_texts(e, path):
+    out = []
+    for i, v in enumerate(_entries(e)):
+        if isinstance(v, BaseException):
+            out.append(('/'.join(map(str, path + [i])) + f' {type(v).__name__}{v.args!r}'[:80],
+                        get_remote_traceback(v) if is_remote_exception(v) else '(not remote)'))
+            out += _nested_texts(v, path + [i])
+    return out
+
+
 def build(spec, info):
     if spec.get('ens') is not None:
         entries = []
@@ -739,6 +749,10 @@ def _run_case(case, T, info, res):
         for rule, detail in hits:
             mon.append(dict(prop='C15', rule=rule, detail=f'hop {k} ({"re-raised" if h["rr"] else "forwarded"}, arg={h["arg"]}): {detail}'))
         x = y
+        if case.get('verbose'):
+            res.setdefault('texts', [snap['contain'] or ''])
+            res['texts'].append(get_remote_traceback(y) if is_remote_exception(y) else '(not remote)')
+            res['nested_texts'] = _nested_texts(y, [])
     res['pieces'] = T.pieces
     res['names'] = T.names
     res['events'] = [res['origin']] + [[h['line'], h['obs']] for h in res['hops']]
